@@ -13,12 +13,14 @@ import (
 	"runtime"
 	"runtime/debug"
 	"sort"
+	"strconv"
 	"strings"
 	"sync"
 	"sync/atomic"
 	"testing"
 	"testing/synctest"
 	"time"
+	"unsafe"
 )
 
 func gptr() uintptr
@@ -41,6 +43,13 @@ type G struct {
 	// about to block on; it is printed in deadlock reports.
 	Note string
 	goid int64
+	ptr  uintptr
+	// newlyParked is set by park and consumed by the scheduler.
+	newlyParked bool
+	// rng decides seam choices (map order, select polling) locally when the
+	// simulation runs with LocalSeams, so that goroutines of the system under
+	// test never touch shared simulator state (see Config.LocalSeams).
+	rng *Rand
 	// lastStmt is the last instrumented (statement-level or seam) site passed,
 	// as opposed to sites inside shims and pipes.
 	lastStmt int
@@ -89,6 +98,11 @@ type Config struct {
 	MaxSteps int
 	Watchdog time.Duration // fake time without progress that means deadlock
 	Trace    func(line string)
+	// LocalSeams makes seam choices of managed goroutines (map iteration order, select polling order)
+	// come from a per-goroutine PRNG derived from one tape value and the goroutine's name, instead of
+	// from the shared tape. Race-detector trials use it: a shared tape would be a hidden
+	// synchronisation point between every pair of goroutines that iterate a map.
+	LocalSeams bool
 	// OnPanic is called (on the dying goroutine, after the event was recorded)
 	// when a managed goroutine panics; harnesses use it to model process death.
 	OnPanic func(ev PanicEvent)
@@ -96,15 +110,16 @@ type Config struct {
 
 // Sim is one simulated execution.
 type Sim struct {
-	mu     sync.Mutex
-	byPtr  map[uintptr]*G
-	all    []*G
-	notify chan struct{}
-	tape   *Tape
-	strat  Strategy
-	cfg    Config
-	cur    *G
-	seq    int
+	mu        sync.Mutex
+	all       []*G // live managed goroutines; preallocated, never regrown (see spawn)
+	seamSeed  uint64
+	schedSync int64 // address used for the goroutine -> scheduler happens-before edge
+	notify    chan struct{}
+	tape      *Tape
+	strat     Strategy
+	cfg       Config
+	cur       *G
+	seq       int
 
 	steps    int
 	switches int
@@ -115,7 +130,6 @@ type Sim struct {
 	start    time.Time
 
 	siteHits map[int]int
-	newParks []*G
 
 	Probes    map[string]int
 	SitesSeen map[int]int
@@ -157,8 +171,14 @@ func fnvAddInt(h uint64, v int) uint64 {
 //go:norace
 func (s *Sim) current() *G {
 	p := gptr()
+	var g *G
 	s.mu.Lock()
-	g := s.byPtr[p]
+	for _, x := range s.all {
+		if x.ptr == p {
+			g = x
+			break
+		}
+	}
 	s.mu.Unlock()
 	return g
 }
@@ -252,6 +272,11 @@ func ParkUntil(site int, pred func() bool) {
 
 //go:norace
 func (s *Sim) park(g *G, site int, pred func() bool) {
+	// (called with race synchronisation events disabled) publish everything this goroutine did so far
+	// to the scheduler - and only to the scheduler
+	raceOn()
+	raceReleaseMerge(unsafe.Pointer(&s.schedSync))
+	raceOff()
 	s.mu.Lock()
 	g.site = site
 	if site >= 0 && (site < hBase || isHarnessSite(site)) {
@@ -259,7 +284,7 @@ func (s *Sim) park(g *G, site int, pred func() bool) {
 	}
 	g.pred = pred
 	g.parked = true
-	s.newParks = append(s.newParks, g)
+	g.newlyParked = true
 	s.mu.Unlock()
 	select {
 	case s.notify <- struct{}{}:
@@ -328,50 +353,68 @@ func (s *Sim) spawn(label string, f func()) {
 		s.seq++
 		n = s.seq
 	}
-	name := fmt.Sprintf("%s%s#%d", pname, label, n)
+	name := pname + label + "#" + strconv.Itoa(n) // (no fmt here: its pooled buffers synchronise, and synchronisation is switched off)
 	g := &G{Name: name, Kind: kindOf(name), wake: make(chan struct{}), site: siteSpawn, lastStmt: siteSpawn}
-	s.all = append(s.all, g)
-	s.mu.Unlock()
-	raceOn()
-	go func() {
-		raceOff()
-		p := gptr()
-		var id int64
-		if DebugStacks {
-			id = curGoid()
-		}
-		s.mu.Lock()
-		s.byPtr[p] = g
-		g.goid = id
+	if s.cfg.LocalSeams {
+		g.rng = NewRand(s.seamSeed, fnvAdd(fnvOff, name))
+	}
+	if len(s.all) == cap(s.all) {
 		s.mu.Unlock()
 		raceOn()
-		defer s.exit(g, p)
-		raceOff()
-		s.park(g, siteSpawn, nil)
-		raceOn()
-		f()
-	}()
+		panic("zzsimrt: too many live goroutines in one simulation")
+	}
+	s.all = append(s.all, g) // within capacity: no reallocation, nothing another goroutine wrote is read
+	s.mu.Unlock()
+	raceOn()
+	go s.goroutineMain(g, f)
+}
+
+// goroutineMain is the body of every managed goroutine.
+//
+//go:norace
+func (s *Sim) goroutineMain(g *G, f func()) {
+	raceOff()
+	p := gptr()
+	var id int64
+	if DebugStacks {
+		id = curGoid()
+	}
+	s.mu.Lock()
+	g.ptr = p
+	g.goid = id
+	s.mu.Unlock()
+	raceOn()
+	defer s.exit(g, p)
+	raceOff()
+	s.park(g, siteSpawn, nil)
+	raceOn()
+	f()
 }
 
 //go:norace
 func (s *Sim) exit(g *G, p uintptr) {
 	r := recover()
-	raceOff()
 	var ev *PanicEvent
 	if r != nil {
 		ev = &PanicEvent{G: g.Name, Kind: g.Kind, Value: fmt.Sprint(r), Frames: sutFrames(string(debug.Stack()))}
 	}
+	raceReleaseMerge(unsafe.Pointer(&s.schedSync))
+	raceOff()
 	s.mu.Lock()
 	if ev != nil {
 		ev.Step = s.steps
 		s.panics = append(s.panics, *ev)
 	}
 	g.dead = true
+	g.ptr = 0
 	hook := s.cfg.OnPanic
-	delete(s.byPtr, p)
 	for i, x := range s.all {
 		if x == g {
-			s.all = append(s.all[:i:i], s.all[i+1:]...)
+			for j := i; j+1 < len(s.all); j++ {
+				s.all[j] = s.all[j+1]
+			}
+			s.all[len(s.all)-1] = nil
+			s.all = s.all[:len(s.all)-1]
 			break
 		}
 	}
@@ -435,6 +478,25 @@ func Choose(kind string, n int) int {
 	return s.Choose(kind, n)
 }
 
+// seamChoose draws a seam choice for the calling managed goroutine: from its own PRNG under
+// LocalSeams, else from the shared tape.
+//
+//go:norace
+func (s *Sim) seamChoose(kind string, n int) int {
+	if n <= 1 {
+		return 0
+	}
+	if s.cfg.LocalSeams {
+		raceOff()
+		g := s.current()
+		raceOn()
+		if g != nil && g.rng != nil {
+			return g.rng.IntN(n)
+		}
+	}
+	return s.Choose(kind, n)
+}
+
 // Probe counts a "this rare condition was hit" event.
 //
 //go:norace
@@ -478,7 +540,7 @@ func Run(t *testing.T, cfg Config, main func(s *Sim)) (out Outcome) {
 		cfg.Strategy = RandomStrategy{}
 	}
 	s := &Sim{
-		byPtr:     map[uintptr]*G{},
+		all:       make([]*G, 0, 4096),
 		tape:      cfg.Tape,
 		strat:     cfg.Strategy,
 		cfg:       cfg,
@@ -489,15 +551,28 @@ func Run(t *testing.T, cfg Config, main func(s *Sim)) (out Outcome) {
 		SitesSeen: map[int]int{},
 		PairsSeen: map[uint64]struct{}{},
 	}
-	func() {
+	// The bubble runs on a goroutine of its own: when the race detector reported something during the
+	// bubble, the testing package fails the test with FailNow (runtime.Goexit), which must not take the
+	// worker's loop with it.
+	bubbleDone := make(chan struct{})
+	go func() {
+		defer close(bubbleDone)
 		defer func() {
 			if r := recover(); r != nil {
 				out.BubblePanic = fmt.Sprint(r)
+				if !out.Deadlock {
+					// not announced by the scheduler: keep the goroutine dump for diagnosis
+					buf := make([]byte, 1<<20)
+					out.BubblePanic += "\n" + string(buf[:runtime.Stack(buf, true)])
+				}
 			}
 		}()
 		synctest.Test(t, func(t *testing.T) {
 			s.notify = make(chan struct{}, 1)
 			s.start = time.Now()
+			if cfg.LocalSeams {
+				s.seamSeed = uint64(cfg.Tape.Choose("seamseed", 1<<30))
+			}
 			if !active.CompareAndSwap(nil, s) {
 				panic("zzsimrt: a simulation is already active in this process")
 			}
@@ -507,6 +582,7 @@ func Run(t *testing.T, cfg Config, main func(s *Sim)) (out Outcome) {
 			out.FakeElapsed = time.Since(s.start)
 		})
 	}()
+	<-bubbleDone
 	active.CompareAndSwap(s, nil)
 	out.Steps = s.steps
 	out.Switches = s.switches
@@ -529,19 +605,26 @@ func (s *Sim) loop(out *Outcome) {
 	_ = lastProgress
 	for {
 		synctest.Wait()
+		raceAcquire(unsafe.Pointer(&s.schedSync))
 		s.mu.Lock()
 		// account for new parks in a deterministic order
-		if len(s.newParks) > 1 {
-			sort.Slice(s.newParks, func(i, j int) bool { return s.newParks[i].Name < s.newParks[j].Name })
+		var newParks []*G
+		for _, g := range s.all {
+			if g.newlyParked {
+				g.newlyParked = false
+				newParks = append(newParks, g)
+			}
 		}
-		for _, g := range s.newParks {
+		if len(newParks) > 1 {
+			sort.Slice(newParks, func(i, j int) bool { return newParks[i].Name < newParks[j].Name })
+		}
+		for _, g := range newParks {
 			if g.site >= 0 {
 				s.siteHits[g.site]++
 				s.SitesSeen[g.site]++
 				s.strat.OnPark(s, g, g.site, s.siteHits[g.site])
 			}
 		}
-		s.newParks = s.newParks[:0]
 		live := len(s.all)
 		elig = elig[:0]
 		for _, g := range s.all {
@@ -566,6 +649,7 @@ func (s *Sim) loop(out *Outcome) {
 			}
 			if fired {
 				synctest.Wait()
+				raceAcquire(unsafe.Pointer(&s.schedSync))
 				s.mu.Lock()
 				n := 0
 				for _, g := range s.all {
